@@ -22,9 +22,9 @@ Print Assumptions C23_handoff_complete.
 (* non-vacuity: producer subgraph then anti_join consumer across handoff 0 *)
 Example C23_example :
   let a := {| sg_recv := []; sg_send := [(0%N, SFresh)];
-              sg_nodes := [ {| n_id := 0%N; n_kind := NSource 0; n_ins := []; n_outs := [0%N] |} ] |} in
+              sg_slots := []; sg_nodes := [ {| n_id := 0%N; n_kind := NSource 0; n_ins := []; n_outs := [0%N] |} ] |} in
   let b := {| sg_recv := [(0%N, false)]; sg_send := [];
-              sg_nodes := [ {| n_id := 1%N; n_kind := NSource 1; n_ins := []; n_outs := [1%N] |};
+              sg_slots := []; sg_nodes := [ {| n_id := 1%N; n_kind := NSource 1; n_ins := []; n_outs := [1%N] |};
                             {| n_id := 2%N; n_kind := NOp (op_anti_join Tick Tick); n_ins := [0%N; 1%N]; n_outs := [2%N] |};
                             {| n_id := 3%N; n_kind := NSink 0; n_ins := [2%N]; n_outs := [] |} ] |} in
   let p := {| p_body := [IRun a; IRun b]; p_sched := []; p_swaps := [];
